@@ -62,9 +62,33 @@ def with_placeholders(r, v, depth=0):
     return out
 
 
+# values that are == but of different types (1 / 1.0 / True, 0 / 0.0 / -0.0 / False), repeated
+# items, equal-but-distinct containers: whatever keys a cache or a set by value collides on
+TWINS = [
+    ("schema.list(schema.any(schema.int, schema.float))", "[1, 1.0]"),
+    ("schema.list(schema.any(schema.int, schema.float))", "[1.0, 1, 0, 0.0]"),
+    ("schema.list(schema.any(schema.bool, schema.int, schema.float))", "[True, 1, 1.0, False, 0, 0.0, -0.0]"),
+    ("schema.list(schema.any)", "[1, 1.0, True]"), ("schema.list(schema.any)", "[0.0, 0, False, -0.0]"),
+    ("schema.list", "[True, 1, 1.0]"), ("schema.list", "[1.0, True]"), ("schema.list", "[[1], [1.0], [True]]"),
+    ("schema.dict", "{'a': 1, 'b': 1.0, 'c': True}"), ("schema.dict", "{'a': 0.0, 'b': False, 'c': 0}"),
+    ("schema.dict({...: ...})", "{'x': 1.0, 'y': True}"), ("schema.any", "1.0"), ("schema.any", "True"), ("schema.any", "1"),
+    ("schema.list([..., schema.any(schema.int, schema.float), ...])", "[1.0, 1, True]"),
+    ("schema.list(schema.list(schema.any(schema.int, schema.float)))", "[[1], [1.0]]"),
+    ("schema.list(schema.dict({'a': schema.any(schema.int, schema.float)}))", "[{'a': 1}, {'a': 1.0}]"),
+    ("schema.list(schema.int)", "[1, 1, 1]"), ("schema.list(schema.str)", "['a', 'a']"),
+    ("schema.list(schema.any(schema.str, schema.bytes))", "['a', b'a']"),
+    ("schema.dict({'a': schema.any(schema.int, schema.float), 'b': schema.any(schema.int, schema.float)})", "{'a': 1, 'b': 1.0}"),
+]
+
+
 def make_cases(ctx, n_schemas, depth, plain_only=False, zoo_rate=0.2, opts=None):
     r = ctx.rng
     cases = []
+    for ssrc, vsrc in TWINS:
+        c = SCase()
+        c.ssrc, c.schema, c.value, c.origin = ssrc, gen.build(ssrc), eval(vsrc, dict(gen.NS)), "twins"
+        c.unmodelled = None
+        cases.append(c)
     for _ in range(n_schemas):
         ssrc, s = gen.gen_schema(r, r.randint(0, depth), opts)
         vals = []
